@@ -103,7 +103,7 @@ class PathResult:
 
 class Explorer:
     def __init__(self, index: SourceIndex, contracts: dict[str, Contract], invariants: dict[str, FunctionInfo],
-                 timeout_ms=10000, feas_timeout_ms=1000):
+                 timeout_ms=10000, feas_timeout_ms=1000, strict=False):
         self.index = index
         self.contracts = contracts
         self.by_target = {}
@@ -124,6 +124,7 @@ class Explorer:
         self.queue = deque()
         self.stats = defaultdict(int)
         self.feas_timeout_ms = feas_timeout_ms
+        self.strict = strict
         self.feas_axioms = True
         self.feas_light = os.environ.get('PYVC_FEAS_LIGHT', '1') == '1'   # feasibility checks without pairwise schemas
         self.timeout_ms = timeout_ms
@@ -1017,11 +1018,13 @@ class Explorer:
                     # 1. proof attempt (z3)  2. quick bounded refutation  3. cvc5 / z3-retry  4. wider refutation
                     st, secs, backend, smt2 = self._discharge(ob.pc, ob.goal, fallback=False)
                     rb = c.opts.get('refute_bound', self.refute_bound)      # per-contract refutation boxes (optional)
+                    if self.strict:
+                        rb = []        # recording the baseline ledger: only what proves at once goes in; no fallbacks
                     if st != 'unsat' and rb:
                         tr = time.time()
                         cex, rstatus = self.refute(P, c, ob, rb[:1], c.opts.get('refute_quick_ms', self.refute_quick_ms))
                         secs += time.time() - tr
-                    if st != 'unsat' and cex is None:
+                    if st != 'unsat' and cex is None and not self.strict:
                         st2, secs2, backend2, smt2b = self._discharge(ob.pc, ob.goal, fallback=True, skip_first=True, smt2=smt2)
                         secs += secs2
                         if st2 == 'unsat':
